@@ -99,8 +99,15 @@ pub fn matches(f: &Finding, v: &Violation) -> bool {
             }
             // several comments at known positions may each be sufficient on their own (three `// n` lines below three
             // term markers): counterfactual with ALL comments at known positions removed
-            match remove_comments_with_keys(&v.input, &keys) {
-                Some(x) if x != v.input => recheck(v, &x) == Some(false),
+            match remove_comments_with_keys(&v.input, &keys, false) {
+                Some(x) if x != v.input && recheck(v, &x) == Some(false) => {
+                    // … and it must persist when those comments are replaced by the canonical ones of their shapes
+                    match remove_comments_with_keys(&v.input, &keys, true) {
+                        Some(c) if c == v.input => true,
+                        Some(c) => recheck(v, &c) == Some(true),
+                        None => false,
+                    }
+                }
                 _ => false,
             }
         }
@@ -140,7 +147,8 @@ pub fn violation_kind(v: &Violation) -> String {
     format!("{}/{}", v.oracle, w)
 }
 
-pub fn remove_comments_with_keys(input: &str, keys: &[&str]) -> Option<String> {
+/// `canonicalise` = false: delete the comments at known positions; true: replace them by the canonical comment of their shape.
+pub fn remove_comments_with_keys(input: &str, keys: &[&str], canonicalise: bool) -> Option<String> {
     let root = tree::parse_ok(input)?;
     let leaves = tree::leaves(&root);
     // a position is matched by shape|parent|grandparent here (the neighbours differ between the comments of one input:
@@ -149,11 +157,16 @@ pub fn remove_comments_with_keys(input: &str, keys: &[&str]) -> Option<String> {
         k.split('|').take(3).collect::<Vec<_>>().join("|")
     }
     let known: std::collections::HashSet<String> = keys.iter().map(|k| prefix3(k)).collect();
-    let mut cuts: Vec<(usize, usize)> = vec![];
+    let mut cuts: Vec<(usize, usize, String)> = vec![];
     for c in leaves.iter().filter(|l| tree::is_comment(l.kind())) {
         if let Some(k) = comment_key(&root, c.start) {
             if known.contains(&prefix3(&k)) {
-                cuts.push((c.start, c.end()));
+                let rep = if canonicalise {
+                    canonical_comment(c.node.text(), c.kind() == K::LineComment).unwrap_or_else(|| c.node.text().to_string())
+                } else {
+                    String::new()
+                };
+                cuts.push((c.start, c.end(), rep));
             }
         }
     }
@@ -162,8 +175,9 @@ pub fn remove_comments_with_keys(input: &str, keys: &[&str]) -> Option<String> {
     }
     let mut out = String::new();
     let mut last = 0;
-    for (a, b) in cuts {
+    for (a, b, rep) in cuts {
         out.push_str(&input[last..a]);
+        out.push_str(&rep);
         last = b;
     }
     out.push_str(&input[last..]);
@@ -251,6 +265,19 @@ pub fn culprit_comment_keys(v: &Violation) -> Vec<String> {
             }
         }
         if culprit {
+            // the *position* must be what matters, not what the comment says: with the comment replaced by the canonical
+            // comment of its shape the violation has to persist. A defect that depends on the comment's content (a blank-only
+            // line inside it, its length, a character in it) is not explained by a position key.
+            let independent = match canonical_comment(c.node.text(), c.kind() == K::LineComment) {
+                None => true,
+                Some(canon) => {
+                    let x = format!("{}{}{}", &v.input[..s], canon, &v.input[e..]);
+                    tree::parse_ok(&x).is_some() && recheck(v, &x) == Some(true)
+                }
+            };
+            if !independent {
+                continue;
+            }
             if let Some(k) = comment_key(&root, c.start) {
                 if !keys.contains(&k) {
                     keys.push(k);
@@ -259,6 +286,49 @@ pub fn culprit_comment_keys(v: &Violation) -> Vec<String> {
         }
     }
     keys
+}
+
+fn is_canon(text: &str, pre: &str, mid: Option<&str>, post: &str) -> bool {
+    // pre <digits> [mid <digits>] post
+    let Some(rest) = text.strip_prefix(pre) else { return false };
+    let d = rest.len() - rest.trim_start_matches(|c: char| c.is_ascii_digit()).len();
+    let rest = &rest[d..];
+    match mid {
+        None => d > 0 && rest == post,
+        Some(m) => {
+            let Some(rest) = rest.strip_prefix(m) else { return false };
+            let d2 = rest.len() - rest.trim_start_matches(|c: char| c.is_ascii_digit()).len();
+            d > 0 && d2 > 0 && &rest[d2..] == post
+        }
+    }
+}
+
+/// The canonical comment of the same shape class (the shapes the comment mutator injects), or None when the comment already is
+/// one, or is a `@typstyle` directive (whose text is its function).
+pub fn canonical_comment(text: &str, line: bool) -> Option<String> {
+    if text.contains("@typstyle") {
+        return None;
+    }
+    if line {
+        return if is_canon(text, "// c", None, "") { None } else { Some("// c0".into()) };
+    }
+    if !text.contains('\n') {
+        return if is_canon(text, "/* c", None, " */") { None } else { Some("/* c0 */".into()) };
+    }
+    let bullet = text.lines().skip(1).all(|l| l.trim_start().starts_with('*'));
+    let blank = text.lines().skip(1).any(|l| l.trim().is_empty());
+    if bullet {
+        return if is_canon(text, "/* c", Some("\n * y"), "\n */") { None } else { Some("/* c0\n * y0\n */".into()) };
+    }
+    if blank {
+        let canon = "/* c0\n\n  x0 */";
+        return if text == canon { None } else { Some(canon.into()) };
+    }
+    if is_canon(text, "/* c", Some("\n  x"), " */") {
+        None
+    } else {
+        Some("/* c0\n  x0 */".into())
+    }
 }
 
 // ------------------------------------------------------------------------------------------------
